@@ -684,14 +684,15 @@ def rule_unbounded_name_reads(ctx):
     from .facts import kind, strip, render
     prog = ctx.prog
     n = 0
-    NEED = {"Vgetclass": "Vgetclassnamelen", "Vgetname": "Vgetnamelen"}
+    NEED = {"Vgetclass": "Vgetclassnamelen", "Vgetname": "Vgetnamelen", "Vinquire": "Vgetnamelen"}
+    DEST = {"Vgetclass": 1, "Vgetname": 1, "Vinquire": 2}
     occ = {}
     for f in prog.lib_funcs():
         names = {c[1] for _b, _i, _s, c in f.calls()}
         for _b, _i, s, c in f.calls():
-            if c[1] not in NEED or len(c[3]) < 2:
+            if c[1] not in NEED or len(c[3]) <= DEST[c[1]]:
                 continue
-            a = strip(c[3][1])
+            a = strip(c[3][DEST[c[1]]])
             t = a[3] if kind(a) == "var" and len(a) > 3 else ""
             m = re.search(r"\[(\d+)\]$", t or "")
             if not m:
@@ -715,10 +716,11 @@ def rule_unbounded_name_reads(ctx):
         params = [q[0] for q in f.params]
         calls = list(f.calls())
         for _b, _i, _s, c in calls:
-            if c[1] in NEED and len(c[3]) > 1 and kind(strip(c[3][1])) == "var" and strip(c[3][1])[1] in params and any(k[1] == NEED[c[1]] for _b2, _i2, _s2, k in calls):
-                ks = [int_val(x[3]) for _b3, _i3, _s3, x in f.nodes(True) if x[0] == "bin" and x[1] in (">=", ">") and is_int(x[3]) and int_val(x[3]) > 8]
+            if c[1] in NEED and len(c[3]) > DEST[c[1]] and kind(strip(c[3][DEST[c[1]]])) == "var" and strip(c[3][DEST[c[1]]])[1] in params and any(k[1] == NEED[c[1]] for _b2, _i2, _s2, k in calls):
+                # `len >= K` refused: K bytes suffice; `len > K` refused: K + 1 bytes (the terminator)
+                ks = [int_val(x[3]) + (1 if x[1] == ">" else 0) for _b3, _i3, _s3, x in f.nodes(True) if x[0] == "bin" and x[1] in (">=", ">") and is_int(x[3]) and int_val(x[3]) > 8]
                 if ks:
-                    wrappers[f.name] = (min(ks), params.index(strip(c[3][1])[1]))
+                    wrappers[f.name] = (min(ks), params.index(strip(c[3][DEST[c[1]]])[1]))
     for f in prog.lib_funcs():
         for _b, _i, s, c in f.calls():
             if c[1] not in wrappers or len(c[3]) <= wrappers[c[1]][1]:
